@@ -8,6 +8,8 @@ Rules
   R7.3  rewriters: in every _rewrite_ser_data the removed children equal the inserted children, only data children
         (tx/cat/val/xVal/yVal/bubbleSize) are touched, and the inserters are the generated schema-positioned ones
   R7.4  series idx/order: writers take both from series.index; cloned series take max(existing over all plots)+1
+  R7.7  per chart type, ChartXmlWriter's class and SeriesXmlRewriterFactory's class build series XML with the same series-writer
+        class (shared with C08 R8.5)
   R7.6  date categories: epochs and the 1900 leap-year compatibility rule of Category._excel_date_number equal the
         standard's definition (shared with C08 R8.4)
   R7.5  every c:ptCount/@val is the length of the same sequence the sibling c:pt iteration walks
@@ -313,3 +315,9 @@ def run(ctx):
     from checks.c08 import date_system_rule
 
     date_system_rule(ctx, prog, "R7.6")
+
+    # -- R7.7 ------------------------------------------------------------------------------------
+    ctx.rule("R7.7", "for every chart type, replace_data rewrites the series with the series writer add_chart used")
+    from checks.c08 import writer_rewriter_rule
+
+    writer_rewriter_rule(ctx, prog, "R7.7")
